@@ -91,6 +91,11 @@ var (
 )
 
 func aliasParseParams(aliasParams []string) (string, []string, error) {
+	if len(aliasParams) == 0 {
+		// eg `alias --`: flags only, nothing to alias
+		return "", nil, errAliasMissingCommand
+	}
+
 	if !rxAlias.MatchString(aliasParams[0]) && len(aliasParams) >= 2 && len(aliasParams[1]) >= 1 && aliasParams[1][0] != '=' {
 		return "", nil, errInvalidSyntax
 	}
